@@ -46,7 +46,7 @@ def run_sched(chk, buf_units, grid, count, nshards=16):
                 try:
                     rec = json.loads(line)
                     if rec.get("aborted_early"):
-                        chk.coverage["shards_stopped_early_after_30_abnormal_schedules"] = chk.coverage.get("shards_stopped_early_after_30_abnormal_schedules", 0) + 1
+                        chk.coverage["shards_stopped_early_after_12_abnormal_schedules"] = chk.coverage.get("shards_stopped_early_after_12_abnormal_schedules", 0) + 1
                         continue
                     out.append(rec)
                 except ValueError:
